@@ -263,14 +263,13 @@ func splitNode[T any](n *node[T], pos int) (*node[T], error) {
 		return nil, err
 	}
 	ret := p.newChild(segs[0])
-	c := ret.newChild(segs[1])
-	c.handlers = n.handlers
-	c.methodIndex = n.methodIndex
-	c.children = n.children
-	c.indexes = n.indexes
-	for _, item := range c.children {
-		item.parent = c
-	}
+
+	// n 本身作为后一段继续使用，而不是新建一个节点。
+	// 用户通过 [types.BuildNodeHandler] 获得的节点对象必须一直指向保存着处理函数的节点，
+	// 否则拆分之后再添加的请求方法不会体现在 OPTIONS 和 405 的 Allow 报头中。
+	n.segment = segs[1]
+	n.parent = ret
+	ret.children = append(ret.children, n)
 
 	// ret 和 c 的内容在 newChild 之后被修改，所以需要对其子元素重新排序。
 	ret.sort()
